@@ -11,7 +11,14 @@ import (
 	"golang.org/x/tools/go/ssa/ssautil"
 )
 
-const repoDir = "/repo"
+// repoDir is the tree under check: /repo. VERIF_REPO may point at a scratch worktree of /repo instead; that is only
+// used while developing checks against seeded changes (registered commands never set it).
+var repoDir = func() string {
+	if d := os.Getenv("VERIF_REPO"); d != "" {
+		return d
+	}
+	return "/repo"
+}()
 
 func harnessDir() string {
 	if d := os.Getenv("VERIF_HARNESS_DIR"); d != "" {
